@@ -981,16 +981,17 @@ static int run_episodes(void)
 	for (int i = 0; i < nworkers; i++)
 		pthread_join(wthr[i].tid, NULL);
 	vp_rcu_online();
-	vp_watchdog_stop();
 
-	/* quiescence of the whole run */
+	/* quiescence of the whole run (watchdog still on: a broken chain may make these spin) */
 	rcu_barrier();
 	lfq_dummy_accounting(1);
 	if (!vp_nviolations()) {
 		struct cds_lfq_node_rcu *cn;
+		VP_STORE(wthr[0].cur, X_DEQ + 1);
 		rcu_read_lock();
 		cn = q_dequeue();
 		rcu_read_unlock();
+		VP_STORE(wthr[0].cur, 0);
 		if (cn)
 			vp_violation("lfq:node-left-after-last-episode", "cfg=%s", cfgname);
 		else if (q_destroy("end of run") != 0)
